@@ -94,6 +94,8 @@ def run(ctx):
             for t in n.targets:
                 if is_self_attr(t):
                     attrs.add(t.attr)
+    # a container declared in the class body is found too (that it must not be there is what R15 decides)
+    attrs |= {nm_ for nm_, v_ in ed.attrs.items() if isinstance(v_, (ast.Dict, ast.List, ast.Set)) or (isinstance(v_, ast.Call) and isinstance(v_.func, ast.Name) and v_.func.id in ("dict", "list", "set", "OrderedDict", "defaultdict"))}
     # the listener store = the attribute a registration appends its listener parameter into; the sorted
     # cache = the other dict attribute, the one that is filled from the store (names are not assumed)
     global STORE, CACHE
